@@ -300,6 +300,40 @@ def run(ctx):
         ok = sorted(set(got)) == ['NoRuntimeSpecified', 'Timeout(timeout_type)'] or sorted(set(got)) == ['NoRuntimeSpecified', 'Timeout(%s)' % 'timeout_type']
         ctx.ob('R04.5', 'apply_timeout constructs Timeout(<its argument>) and NoRuntimeSpecified only', ok, ctx.where(at), 'constructs %s' % got,
                construct='errors:apply_timeout', sites=got)
+    acquire_error_mapping(ctx, r, cons, 'R04.5')
+    # TimeoutType at the wait site
+    ats = [blk for blk in root.blocks if blk.term.kind == 'call' and blk.term.rcallee and strip_generics(blk.term.rcallee) == 'deadpool::managed::apply_timeout']
+    for a in ats:
+        srcs = [sources(an, x) for x in a.term.args]
+        tts = sorted(s[1].split('::')[-1] for s in srcs[1] if s[0] == 'agg')
+        durs = sorted(s[1] for s in srcs[2] if s[0] in ('field', 'upvar'))
+        ok = tts == ['Wait'] and any(d.endswith('.wait') for d in durs)
+        ctx.ob('R04.5', 'waiting for a slot runs under apply_timeout(TimeoutType::Wait, timeouts.wait)', ok, ctx.where(root, a.term.line),
+               'TimeoutType %s, duration %s' % (tts, durs), construct='timeout-wrap:Wait')
+
+    ctx.not_decided += ["what a concrete manager's recycle() considers healthy (C15-C17)"]
+    ctx.assumptions += ['await desugaring: the Ready arm of the poll switch is the completion of the awaited future']
+
+
+def pool_error_constructions(ctx, r):
+    prog = ctx.prog
+    cons = {}
+    for p in r.GETTER:
+        b = prog.bodies[p]
+        ban = prog.an(b)
+        for blk in b.blocks:
+            if blk.cleanup:
+                continue
+            for s in blk.stmts:
+                if s.kind == 'assign' and s.rv.kind == 'agg' and s.rv.j.get('adt') == POOLERR:
+                    v = s.rv.j['variant']
+                    arg = ban.resolve_operand(s.rv.ops[0]) if s.rv.ops else ''
+                    cons.setdefault(b.path, []).append((v, arg, s.line))
+    return cons
+
+
+def acquire_error_mapping(ctx, r, cons, RULE):
+    prog = ctx.prog
     # acquisition error mapping in the getter closures
     for p in r.GETTER:
         b = prog.bodies[p]
@@ -315,7 +349,7 @@ def run(ctx):
                 made = sorted({v + ('(' + a.split('{')[0] + ')' if v == 'Timeout' else '') for v, a, line in cons.get(p, [])
                                if any(line == st.line for x in reach for st in b.blocks[x].stmts)})
                 want = ['Closed'] if lab == 'Closed' else ['Timeout(TimeoutType::Wait)']
-                ctx.ob('R04.5', 'try_acquire %s maps to %s' % (lab, want[0]), made == want, ctx.where(b, s.term.line), 'constructs %s' % made,
+                ctx.ob(RULE, 'try_acquire %s maps to %s' % (lab, want[0]), made == want, ctx.where(b, s.term.line), 'constructs %s' % made,
                        construct='errors:try_acquire:' + lab, sites=made)
     # the blocking acquire maps its error to Closed
     for p in r.GETTER:
@@ -323,16 +357,4 @@ def run(ctx):
         if calls_named(b, ['tokio::sync::Semaphore::acquire']):
             cl = [c for bb, c, k in prog.callgraph().get(p, []) if k == 'closure']
             made = sorted({v for c in cl for v, a, l in cons.get(c, [])} | {v for v, a, l in cons.get(p, [])})
-            ctx.ob('R04.5', 'acquire error maps to Closed', made == ['Closed'], ctx.where(b), 'constructs %s' % made, construct='errors:acquire')
-    # TimeoutType at the wait site
-    ats = [blk for blk in root.blocks if blk.term.kind == 'call' and blk.term.rcallee and strip_generics(blk.term.rcallee) == 'deadpool::managed::apply_timeout']
-    for a in ats:
-        srcs = [sources(an, x) for x in a.term.args]
-        tts = sorted(s[1].split('::')[-1] for s in srcs[1] if s[0] == 'agg')
-        durs = sorted(s[1] for s in srcs[2] if s[0] in ('field', 'upvar'))
-        ok = tts == ['Wait'] and any(d.endswith('.wait') for d in durs)
-        ctx.ob('R04.5', 'waiting for a slot runs under apply_timeout(TimeoutType::Wait, timeouts.wait)', ok, ctx.where(root, a.term.line),
-               'TimeoutType %s, duration %s' % (tts, durs), construct='timeout-wrap:Wait')
-
-    ctx.not_decided += ["what a concrete manager's recycle() considers healthy (C15-C17)"]
-    ctx.assumptions += ['await desugaring: the Ready arm of the poll switch is the completion of the awaited future']
+            ctx.ob(RULE, 'acquire error maps to Closed', made == ['Closed'], ctx.where(b), 'constructs %s' % made, construct='errors:acquire')
